@@ -69,46 +69,35 @@ Section VarBits.
     - apply N.leb_gt in E. rewrite write_n_ok by (fold p; lia). cbn [bind]. unfold write_bit. eauto.
   Qed.
 
-  Lemma pvb_step prof f value r :
-    parse_variable_bits_loop prof (S f) n value r =
+  Lemma pvb_step f value r :
+    parse_variable_bits_loop (S f) n value r =
     bind (get_n 32 n r) (fun '(tmp, r1) =>
-      let v1raw := value + tmp in
-      if (two32 <=? v1raw) && (match prof with Debug => true | Release => false end)
-      then Panic site_arith
+      let v1 := value + tmp in
+      if two32 <=? v1 then Err
       else
-        let v1 := v1raw mod two32 in
         bind (get r1) (fun '(more, r2) =>
         if negb more then Ok (v1, r2)
-        else
-          let v2 := (v1 * 2 ^ n) mod two32 in
-          let v3raw := v2 + 2 ^ n in
-          if (two32 <=? v3raw) && (match prof with Debug => true | Release => false end)
-          then Panic site_arith
-          else parse_variable_bits_loop prof f n (v3raw mod two32) r2)).
+        else parse_variable_bits_loop f n (v1 * 2 ^ n + 2 ^ n) r2)).
   Proof. reflexivity. Qed.
 
-  Lemma pvb_last prof f value x rest pos :
+  Lemma pvb_last f value x rest pos :
     x < p -> value + x < two32 ->
-    parse_variable_bits_loop prof (S f) n value (mkR (enc (N.to_nat n) x ++ false :: rest) pos)
+    parse_variable_bits_loop (S f) n value (mkR (enc (N.to_nat n) x ++ false :: rest) pos)
     = Ok (value + x, mkR rest (pos + n + 1)).
   Proof.
     intros Hx Hs. rewrite pvb_step. rewrite get_n_enc by (fold p; lia). cbn [bind].
     cbv zeta. replace (two32 <=? value + x) with false by (symmetry; apply N.leb_gt; lia).
-    cbn [andb]. rewrite get_cons. cbn [bind negb]. rewrite (N.mod_small _ _ Hs). reflexivity.
+    rewrite get_cons. cbn [bind negb]. reflexivity.
   Qed.
 
-  Lemma pvb_more prof f value x rest pos :
-    x < p -> value + x < two32 -> (value + x) * p + p < two32 ->
-    parse_variable_bits_loop prof (S f) n value (mkR (enc (N.to_nat n) x ++ true :: rest) pos)
-    = parse_variable_bits_loop prof f n ((value + x) * p + p) (mkR rest (pos + n + 1)).
+  Lemma pvb_more f value x rest pos :
+    x < p -> value + x < two32 ->
+    parse_variable_bits_loop (S f) n value (mkR (enc (N.to_nat n) x ++ true :: rest) pos)
+    = parse_variable_bits_loop f n ((value + x) * p + p) (mkR rest (pos + n + 1)).
   Proof.
-    intros Hx Hs Hs2. rewrite pvb_step. rewrite get_n_enc by (fold p; lia). cbn [bind].
+    intros Hx Hs. rewrite pvb_step. rewrite get_n_enc by (fold p; lia). cbn [bind].
     cbv zeta. replace (two32 <=? value + x) with false by (symmetry; apply N.leb_gt; lia).
-    cbn [andb]. rewrite get_cons. cbn [bind negb]. rewrite (N.mod_small _ _ Hs). fold p.
-    assert (Hs3 : (value + x) * p < two32) by lia.
-    rewrite (N.mod_small _ _ Hs3).
-    replace (two32 <=? (value + x) * p + p) with false by (symmetry; apply N.leb_gt; lia).
-    cbn [andb]. rewrite (N.mod_small _ _ Hs2). reflexivity.
+    rewrite get_cons. cbn [bind negb]. fold p. reflexivity.
   Qed.
 
   Theorem variable_bits_roundtrip v w w' rest :
@@ -152,7 +141,7 @@ Section VarBits.
       rewrite pvb_more by nia.
       replace ((0 + (v / p - 1)) * p + p) with (v / p * p) by nia.
       assert (Hs : v / p * p + v mod p < two32) by lia.
-      rewrite (pvb_last _ _ _ _ _ _ Hml Hs).
+      rewrite (pvb_last _ _ _ _ _ Hml Hs).
       replace (v / p * p + v mod p) with v by lia.
       f_equal. f_equal. f_equal.
       rewrite !app_length. cbn [length]. rewrite !app_length. cbn [length].
